@@ -74,7 +74,7 @@ def corpus_trace(tid, rng):
 def run(ctx):
     boot.load()
     thorough = ctx.tier == "thorough"
-    D = 5 if thorough else 4
+    D = 6 if thorough else 4
     invs = "INVARIANT SameGrams\nINVARIANT NoStopWordLeft\nINVARIANT GramsAreFlatAndBounded\n"
     base = "SPECIFICATION Spec\nCONSTANTS Tokens = {1, 2, 3}\n MaxDocLen = %d\n MaxN = 3\n" % D
     r = ctx.add_mc("NGrams", tlc.run("MC_NGrams", base + " DEV_WrapBeforeFilter = FALSE\n" + invs, workers=16, coverage=True, timeout=1500))
@@ -110,7 +110,7 @@ def run(ctx):
     # C2S: whole vectorizers on random corpora
     rng = ctx.rng
     traces = []
-    for k in range(1200 if thorough else 250):
+    for k in range(5000 if thorough else 250):
         try:
             t = corpus_trace(k + 1, rng)
         except Exception as e:
